@@ -164,7 +164,7 @@ func (in *Interp) installStubs3() {
 		return Str{S: bigConc(in, a[0].(Ptr), "big.Int.String").String()}
 	}
 	S["(*math/big.Int).SetString"] = func(in *Interp, a []Value) Value {
-		s := string(in.concreteBytes(a[1], "big.Int.SetString"))
+		s := string(in.concreteBytesOrConcretize(a[1], "big.Int.SetString input"))
 		v, ok := new(big.Int).SetString(s, in.concInt(a[2], "base"))
 		if !ok {
 			return Tuple{Ptr{}, st.F}
@@ -211,10 +211,18 @@ func (in *Interp) installStubs3() {
 		return in.appendBytes(a[0].(SliceV), strconv.AppendFloat(nil, smt.FPVal(f), fmtc, in.concInt(a[3], "prec"), in.concInt(a[4], "bitsize")))
 	}
 	S["strconv.ParseFloat"] = func(in *Interp, a []Value) Value {
-		s := string(in.concreteBytes(a[0], "ParseFloat"))
+		s := string(in.concreteBytesOrConcretize(a[0], "strconv.ParseFloat input"))
 		f, err := strconv.ParseFloat(s, in.concInt(a[1], "bitsize"))
 		if err != nil {
-			return Tuple{st.FPConst(f), Iface{T: errString, V: Str{S: err.Error()}}}
+			// *strconv.NumError built by the interpreted strconv code would need Err identity
+			// (ErrRange / ErrSyntax): construct it through the package's own helpers
+			p := in.Prog.ImportedPackage("strconv")
+			name := "syntaxError"
+			if ne, ok := err.(*strconv.NumError); ok && ne.Err == strconv.ErrRange {
+				name = "rangeError"
+			}
+			e := in.callFunction(p.Func(name), []Value{Str{S: "ParseFloat"}, Str{S: s}})
+			return Tuple{st.FPConst(f), Iface{T: e.(Ptr).O.T, V: e}}
 		}
 		return Tuple{st.FPConst(f), Iface{}}
 	}
